@@ -151,7 +151,7 @@ def shard(sh: Shard, seed, lo, hi, ncmd, snaps):
 
 def add(run, tier, seed):
     snaps = snapshot_files()
-    per, ncmd = (2, 10) if tier == "quick" else (20, 16)
+    per, ncmd = (3, 12) if tier == "quick" else (80, 20)
     jobs = [{"seed": seed, "lo": i * per, "hi": (i + 1) * per, "ncmd": ncmd, "snaps": snaps} for i in range(NCPU)]
     run.absorb(run_shards("checks.c13_threaded", "shard", jobs, timeout=3000))
     run.need(run.counters.get("threaded_commands_checked", 0) > 100, "threaded facade: too few commands checked")
